@@ -408,6 +408,49 @@ def bounded_renumber(ctx):
                         "the same trace after its symbol table was renumbered so that a chosen symbol owns id 0 (every launch / sync / category / step name and a sample of the others; every symbol in the thorough tier)")
 
 
+def _decode_history_case(seed: int) -> Dict[str, Any]:
+    """Trace.decode_symbol_ids in both modes, in both orders, on one loaded trace: with use_shorten_name=False every row's s_name / s_cat is the
+    string of the file event at its id (whatever was decoded before); with True it is shorten_name of that string."""
+    import contextlib
+    import io
+
+    from hv import gen, rt
+    from hta.utils.utils import shorten_name
+
+    per_rank = gen.gen_trace_set(seed, n_ranks=1 + seed % 2, steps=2, n_top=2, n_streams=2, p_launch=0.9)
+    fails: List[Dict[str, Any]] = []
+    n = 0
+    with rt.trace_dir(per_rank) as d, contextlib.redirect_stdout(io.StringIO()):
+        t = rt.load_trace(d, True, use_multiprocessing=False)
+        files = {rk: {i: e for i, e in gen.complete_events(evs)} for rk, evs in per_rank.items()}
+        order = [True, False, True, False] if seed % 2 else [False, True, False]
+        for step, short in enumerate(order):
+            t.decode_symbol_ids(use_shorten_name=short)
+            for rk in per_rank:
+                df = t.get_trace(rk)
+                n += 1
+                for i, sn, sc in zip(df["index"], df["s_name"], df["s_cat"]):
+                    e = files[rk][int(i)]
+                    wn, wc = (shorten_name(e["name"]), shorten_name(e["cat"])) if short else (e["name"], e["cat"])
+                    if sn != wn or sc != wc:
+                        fails.append({"what": "decoded_strings_after_a_history_of_decodes", "input": {"seed": seed, "decode_calls_use_shorten_name": order[: step + 1], "rank": rk, "events": per_rank},
+                                      "observed": {"event": int(i), "s_name": sn, "s_cat": sc}, "expected": {"s_name": wn, "s_cat": wc}})
+                        break
+                if fails:
+                    break
+            if fails:
+                break
+    return {"n_checks": n, "fails": fails, "nontrivial": n > 0, "sample": {"seed": seed, "order": order}}
+
+
+def bounded_decode_history(ctx):
+    from hv import rt
+
+    k = 8 if not ctx.thorough else 80
+    res = rt.pmap(_decode_history_case, [ctx.seed * 61 + 300 + i for i in range(k)], ctx.procs)
+    return rt.summarise(res, f"{PROP}.decode_history", f"{k} loaded trace sets: decode_symbol_ids(short) / (long) alternating 3-4 times on one Trace, every row's s_name / s_cat against the file's strings")
+
+
 def bounded_matrix(ctx):
     from hv import rt
 
@@ -437,7 +480,7 @@ SPEC = Spec(
     functions=[(ST, "TraceSymbolTable.add_symbols"), (ST, "TraceSymbolTable.add_symbols_mp"), (ST, "TraceSymbolTable.clone"), (ST, "TraceSymbolTable.combine_symbol_tables"),
                (ST, "TraceSymbolTable.encode_df"), (ST, "TraceSymbolTable.decode_df"), (ST, "TraceSymbolTable.update_encoded_df"), (TR, "Trace.parse_single_rank"),
                (TR, "Trace.parse_multiple_ranks"), (TP, "_compress_df"), (ST, "TraceSymbolTable.get_runtime_launch_events_query")],
-    units=units, bounded=[Bounded("numbering_independence_matrix", bounded_matrix), Bounded("add_sequences", bounded_seq), Bounded("renumbered_symbol_table", bounded_renumber)],
+    units=units, bounded=[Bounded("numbering_independence_matrix", bounded_matrix), Bounded("add_sequences", bounded_seq), Bounded("renumbered_symbol_table", bounded_renumber), Bounded("decode_history", bounded_decode_history)],
     trusted=["multiprocessing.Pool.map returns results in argument order; Manager().Queue drain yields some permutation of what was put",
              "python list.append / dict insertion / `in` as modelled by PyVC (arrays + quantifiers)"],
     explanation="Proved: the bijection / prefix-stability / presence invariant of add_symbols for every input sequence, and that every (re-)encoding and decoding lambda preserves the "
